@@ -1,4 +1,6 @@
 import DendroModel.Model.C19Ext
+import DendroModel.Model.C19Heap
+import DendroModel.Gen.C19Kernels
 /-! C19 — property theorems about the model the driver `drv_c19` executes (`DendroModel/Model/C19.lean`).
 Only property theorems live directly in `namespace DendroModel.C19` of this file; helper lemmas are in
 `DendroModel.C19.Aux`.  A row is observed through `get? t rows` (`none` = the taxon has no sequence).
@@ -3279,3 +3281,1635 @@ example : ∃ r, concatFromStreamsNS 0 (fun o : Option Parsed => o) [some pA, so
   (fromStreamsNS_ok_iff 0 _ _ pA [pB] rfl (by decide)).mpr (by decide)
 example : ∃ m', getItem { mA with rows := [(1, [3])] } 0 = .ok (m', []) ∧ keys m'.rows = [1, 0] := ⟨_, rfl, rfl⟩
 end DendroModel.C19.Aux
+
+/-! # Reference semantics: aliasing of arguments (`Model/C19Heap.lean`)
+
+The operations once more, on matrix OBJECTS over a heap of sequence OBJECTS, operands named by pool position (so that a matrix
+can be its own argument or occur twice).  `Sep w` = no two dict entries hold one sequence object.  Theorems: on a separated
+pool every operation does to the value of its matrix what the value-level model says (`hBin_sim`, `hUnary_sim`, `hFill_sim`,
+`hElement_sim`, `hCloneWith_sim`) — ALSO with equal operands (`hBin_self`, `hUnaryM_snapshot`) —, leaves every other matrix
+object as it was (the `frame` fields: "arguments unchanged"), and creates no sharing (`hStep_sep`, `hRun_sep`). -/
+namespace DendroModel.C19.Aux
+open DendroModel.C19
+
+def addrs (refs : Refs) : List Nat := refs.map Prod.snd
+
+theorem hget_append (h x : List Row) (a : Nat) (ha : a < h.length) : hget (h ++ x) a = hget h a := by
+  simp [hget, List.getElem?_append_left ha]
+
+theorem hget_append_self (h : List Row) (r : Row) : hget (h ++ [r]) h.length = r := by
+  simp [hget]
+
+theorem hget_set_ne (h : List Row) (a b : Nat) (r : Row) (hne : a ≠ b) : hget (h.set a r) b = hget h b := by
+  simp [hget, List.getElem?_set_ne hne]
+
+theorem hget_set_self (h : List Row) (a : Nat) (r : Row) (ha : a < h.length) : hget (h.set a r) a = r := by
+  simp [hget, ha]
+
+theorem get?_deref (h : List Row) (refs : Refs) (t : Taxon) :
+    get? t (deref h refs) = (aget? t refs).map (hget h) := by
+  induction refs with
+  | nil => simp [deref, get?, aget?]
+  | cons kv rest ih =>
+    obtain ⟨k, a⟩ := kv
+    simp only [deref, List.map_cons] at ih ⊢
+    by_cases hk : k = t <;> simp [get?, aget?, hk, ih]
+
+theorem keys_deref (h : List Row) (refs : Refs) : keys (deref h refs) = akeys refs := by
+  simp [keys, deref, akeys, List.map_map, Function.comp_def]
+
+theorem has_deref (h : List Row) (refs : Refs) (t : Taxon) : has t (deref h refs) = (aget? t refs).isSome := by
+  simp [has, get?_deref]
+
+theorem rowOf_deref (h : List Row) (refs : Refs) (t : Taxon) :
+    rowOf t (deref h refs) = ((aget? t refs).map (hget h)).getD [] := by
+  simp only [rowOf, get?_deref]
+
+theorem deref_adel (h : List Row) (refs : Refs) (t : Taxon) : deref h (adel t refs) = del t (deref h refs) := by
+  induction refs with
+  | nil => simp [deref, adel, del]
+  | cons kv rest ih =>
+    obtain ⟨k, a⟩ := kv
+    simp only [deref, adel, del, List.map_cons] at ih ⊢
+    by_cases hk : k = t <;> simp [hk, ih]
+
+theorem deref_aset (h : List Row) (refs : Refs) (k : Taxon) (a : Nat) :
+    deref h (aset k a refs) = set k (hget h a) (deref h refs) := by
+  induction refs with
+  | nil => simp [deref, aset, set]
+  | cons kv rest ih =>
+    obtain ⟨k', a'⟩ := kv
+    simp only [deref, List.map_cons] at ih ⊢
+    by_cases hk : k' = k <;> simp [aset, set, hk, ih]
+
+theorem deref_append (h x : List Row) (refs : Refs) (hb : ∀ a ∈ addrs refs, a < h.length) :
+    deref (h ++ x) refs = deref h refs := by
+  simp only [deref]
+  apply List.map_congr_left
+  intro p hp
+  have : p.2 < h.length := hb p.2 (by simp only [addrs, List.mem_map]; exact ⟨p, hp, rfl⟩)
+  rw [hget_append h x p.2 this]
+
+theorem deref_set_notin (h : List Row) (a : Nat) (r : Row) (refs : Refs) (hn : a ∉ addrs refs) :
+    deref (h.set a r) refs = deref h refs := by
+  simp only [deref]
+  apply List.map_congr_left
+  intro p hp
+  have : a ≠ p.2 := by
+    intro he; apply hn; simp only [addrs, List.mem_map]; exact ⟨p, hp, he.symm⟩
+  rw [hget_set_ne h a p.2 r this]
+
+theorem deref_set_at (h : List Row) (a : Nat) (r : Row) (refs : Refs) (k : Taxon) (hk : (k, a) ∈ refs) (ha : a < h.length)
+    (huniq : ∀ k', (k', a) ∈ refs → k' = k) (hnd : (akeys refs).Nodup) :
+    deref (h.set a r) refs = set k r (deref h refs) := by
+  induction refs with
+  | nil => simp at hk
+  | cons kv rest ih =>
+    obtain ⟨k', a'⟩ := kv
+    simp only [akeys, List.map_cons, List.nodup_cons] at hnd
+    by_cases hkk : k' = k
+    · subst hkk
+      have ha' : a' = a := by
+        simp only [List.mem_cons, Prod.mk.injEq] at hk
+        rcases hk with ⟨_, h2⟩ | hk
+        · exact h2.symm
+        · exfalso; apply hnd.1; simp only [List.mem_map]; exact ⟨(k', a), hk, rfl⟩
+      subst ha'
+      have hrest : a' ∉ addrs rest := by
+        intro hin
+        simp only [addrs, List.mem_map] at hin
+        obtain ⟨p, hp, hpa⟩ := hin
+        have := huniq p.1 (by simp only [List.mem_cons]; right; rw [← hpa]; exact hp)
+        apply hnd.1; simp only [List.mem_map]; exact ⟨p, hp, this⟩
+      have := deref_set_notin h a' r rest hrest
+      simp only [deref] at this
+      simp [deref, set, this, hget_set_self h a' r ha]
+    · have hk' : (k, a) ∈ rest := by
+        simp only [List.mem_cons, Prod.mk.injEq] at hk
+        rcases hk with ⟨h1, _⟩ | hk
+        · exact absurd h1.symm hkk
+        · exact hk
+      have hne : a ≠ a' := by
+        intro he; subst he
+        exact hkk (huniq k' (by simp))
+      have ih' := ih hk' (fun k'' hk'' => huniq k'' (by simp [hk''])) hnd.2
+      simp only [deref] at ih'
+      simp [deref, set, hkk, ih', hget_set_ne h a a' r hne]
+
+end DendroModel.C19.Aux
+
+namespace DendroModel.C19
+
+/-- a world WITHOUT sharing: every dict entry of every matrix holds a sequence object of its own (and dicts have distinct keys,
+    addresses are allocated) -/
+structure Sep (w : World) : Prop where
+  bound : ∀ i, ∀ a ∈ Aux.addrs (refsOf w i), a < w.heap.length
+  keysNd : ∀ i, (akeys (refsOf w i)).Nodup
+  inj : ∀ i i' k k' a, (k, a) ∈ refsOf w i → (k', a) ∈ refsOf w i' → i = i' ∧ k = k'
+
+/-- everything about the matrix objects except their rows -/
+def metas (w : World) : List (Nat × List Taxon × Option Label × List (Label × List Nat)) :=
+  w.mats.map (fun m => (m.ns, m.taxa, m.label, m.subs))
+
+/-- what an in-place operation on matrix `i` has to establish: the rows of `i` are `R`, the rows of every other matrix are
+    as before, no sharing, nothing but rows touched -/
+structure StepOK (i : Nat) (w w' : World) (R : Rows) : Prop where
+  rows : rowsOf w' i = R
+  frame : ∀ m, m ≠ i → rowsOf w' m = rowsOf w m
+  sep : Sep w'
+  metas : metas w' = metas w
+
+end DendroModel.C19
+
+namespace DendroModel.C19.Aux
+open DendroModel.C19
+
+theorem getElem?_modAt {α : Type} (f : α → α) : ∀ (i : Nat) (l : List α) (j : Nat),
+    (modAt i f l)[j]? = if j = i then (l[j]?).map f else l[j]?
+  | _, [], j => by simp [modAt]
+  | 0, x :: xs, j => by
+    cases j <;> simp [modAt]
+  | i + 1, x :: xs, j => by
+    cases j with
+    | zero => simp [modAt]
+    | succ j => simp [modAt, getElem?_modAt f i xs j]
+
+theorem length_modAt {α : Type} (f : α → α) : ∀ (i : Nat) (l : List α), (modAt i f l).length = l.length
+  | _, [] => by simp [modAt]
+  | 0, x :: xs => by simp [modAt]
+  | i + 1, x :: xs => by simp [modAt, length_modAt f i xs]
+
+theorem refsOf_setRefs (w : World) (i : Nat) (f : Refs → Refs) (j : Nat) (hi : i < w.mats.length) :
+    refsOf (setRefs w i f) j = if j = i then f (refsOf w i) else refsOf w j := by
+  simp only [refsOf, setRefs, getElem?_modAt]
+  by_cases hj : j = i
+  · subst hj
+    simp [List.getElem?_eq_getElem hi]
+  · simp [hj]
+
+theorem metas_setRefs (w : World) (i : Nat) (f : Refs → Refs) : metas (setRefs w i f) = metas w := by
+  simp only [metas, setRefs]
+  apply List.ext_getElem?
+  intro j
+  simp only [List.getElem?_map, getElem?_modAt]
+  by_cases hj : j = i
+  · subst hj; cases w.mats[j]? <;> simp
+  · simp [hj]
+
+theorem metas_heap (w : World) (h : List Row) : metas { w with heap := h } = metas w := rfl
+
+theorem length_of_metas (w w' : World) (h : metas w' = metas w) : w'.mats.length = w.mats.length := by
+  have := congrArg List.length h
+  simpa [metas] using this
+
+theorem taxaOf_of_metas (w w' : World) (h : metas w' = metas w) (i : Nat) : taxaOf w' i = taxaOf w i := by
+  have := congrArg (fun l => l[i]?) h
+  simp only [metas, List.getElem?_map] at this
+  simp only [taxaOf]
+  cases h1 : w'.mats[i]? <;> cases h2 : w.mats[i]? <;> simp_all
+
+theorem mem_of_aget? (k : Taxon) (a : Nat) (refs : Refs) (h : aget? k refs = some a) : (k, a) ∈ refs := by
+  induction refs with
+  | nil => simp [aget?] at h
+  | cons kv rest ih =>
+    obtain ⟨k', a'⟩ := kv
+    by_cases hk : k' = k
+    · simp [aget?, hk] at h; subst hk; subst h; simp
+    · simp [aget?, hk] at h; simp [ih h]
+
+theorem mem_aset (k : Taxon) (a : Nat) (refs : Refs) (p : Taxon × Nat) (h : p ∈ aset k a refs) : p = (k, a) ∨ p ∈ refs := by
+  induction refs with
+  | nil => simp [aset] at h; simp [h]
+  | cons kv rest ih =>
+    obtain ⟨k', a'⟩ := kv
+    by_cases hk : k' = k
+    · simp only [aset, hk, if_true, List.mem_cons] at h
+      rcases h with h | h
+      · left; exact h
+      · right; simp [h]
+    · simp only [aset, hk, if_false, List.mem_cons] at h
+      rcases h with h | h
+      · right; simp [h]
+      · rcases ih h with h | h
+        · left; exact h
+        · right; simp [h]
+
+theorem akeys_aset_nodup (k : Taxon) (a : Nat) (refs : Refs) (h : (akeys refs).Nodup) : (akeys (aset k a refs)).Nodup := by
+  induction refs with
+  | nil => simp [aset, akeys]
+  | cons kv rest ih =>
+    obtain ⟨k', a'⟩ := kv
+    simp only [akeys, List.map_cons, List.nodup_cons] at h
+    by_cases hk : k' = k
+    · simp only [aset, hk, if_true, akeys, List.map_cons, List.nodup_cons]
+      subst hk; exact h
+    · simp only [aset, hk, if_false, akeys, List.map_cons, List.nodup_cons]
+      refine ⟨?_, ih h.2⟩
+      intro hin
+      simp only [List.mem_map] at hin
+      obtain ⟨p, hp, hp1⟩ := hin
+      rcases mem_aset k a rest p hp with hp | hp
+      · subst hp; exact hk hp1.symm
+      · apply h.1; simp only [List.mem_map]; exact ⟨p, hp, hp1⟩
+
+theorem mem_adel (k : Taxon) (refs : Refs) (p : Taxon × Nat) (h : p ∈ adel k refs) : p ∈ refs := by
+  simp only [adel, List.mem_filter] at h; exact h.1
+
+theorem akeys_adel_nodup (k : Taxon) (refs : Refs) (h : (akeys refs).Nodup) : (akeys (adel k refs)).Nodup := by
+  simp only [akeys, adel] at h ⊢
+  exact (List.filter_sublist.map Prod.fst).nodup h
+
+theorem hHas_eq (w : World) (i : Nat) (k : Taxon) : hHas w i k = has k (rowsOf w i) := by
+  simp [hHas, rowsOf, has_deref]
+
+theorem hRow_eq (w : World) (i : Nat) (k : Taxon) : hRow w i k = rowOf k (rowsOf w i) := by
+  simp only [hRow, rowsOf, rowOf_deref]
+
+/-- A: a new object under `k` -/
+theorem allocBind_ok (w : World) (i : Nat) (k : Taxon) (r : Row) (hs : Sep w) (hi : i < w.mats.length) :
+    StepOK i w (allocBind w i k r) (set k r (rowsOf w i)) := by
+  have hlen : i < ({ w with heap := w.heap ++ [r] } : World).mats.length := hi
+  have hrefs : ∀ m, refsOf (allocBind w i k r) m = if m = i then aset k w.heap.length (refsOf w i) else refsOf w m := by
+    intro m
+    simp only [allocBind]
+    rw [refsOf_setRefs _ i _ m hlen]
+    rfl
+  have hheap : (allocBind w i k r).heap = w.heap ++ [r] := rfl
+  refine ⟨?_, ?_, ?_, ?_⟩
+  · simp only [rowsOf, hrefs, hheap, if_true, deref_aset, hget_append_self]
+    rw [deref_append _ _ _ (hs.bound i)]
+  · intro m hm
+    simp only [rowsOf, hrefs, hheap, hm, if_false]
+    rw [deref_append _ _ _ (hs.bound m)]
+  · refine ⟨?_, ?_, ?_⟩
+    · intro m a ha
+      rw [hheap, List.length_append]
+      rw [hrefs] at ha
+      by_cases hm : m = i
+      · simp only [hm, if_true, addrs, List.mem_map] at ha
+        obtain ⟨p, hp, hpa⟩ := ha
+        rcases mem_aset _ _ _ p hp with hp | hp
+        · subst hp; simp only at hpa; simp only [List.length_singleton]; omega
+        · have := hs.bound i a (by simp only [addrs, List.mem_map]; exact ⟨p, hp, hpa⟩)
+          simp only [List.length_singleton]; omega
+      · simp only [hm, if_false] at ha
+        have := hs.bound m a ha
+        simp only [List.length_singleton]; omega
+    · intro m
+      rw [hrefs]
+      by_cases hm : m = i
+      · simp only [hm, if_true]; exact akeys_aset_nodup _ _ _ (hs.keysNd i)
+      · simp only [hm, if_false]; exact hs.keysNd m
+    · intro m m' k1 k2 a h1 h2
+      rw [hrefs] at h1 h2
+      have old : ∀ m k0, (k0, a) ∈ refsOf w m → a < w.heap.length := by
+        intro m k0 hmem
+        exact hs.bound m a (by simp only [addrs, List.mem_map]; exact ⟨(k0, a), hmem, rfl⟩)
+      by_cases hm : m = i <;> by_cases hm' : m' = i
+      · simp only [hm, hm', if_true] at h1 h2
+        rcases mem_aset _ _ _ _ h1 with h1 | h1 <;> rcases mem_aset _ _ _ _ h2 with h2 | h2
+        · rw [Prod.mk.injEq] at h1 h2; exact ⟨by rw [hm, hm'], by rw [h1.1, h2.1]⟩
+        · rw [Prod.mk.injEq] at h1; have := old i k2 h2; omega
+        · rw [Prod.mk.injEq] at h2; have := old i k1 h1; omega
+        · have := hs.inj i i k1 k2 a h1 h2; exact ⟨by rw [hm, hm'], this.2⟩
+      · simp only [hm, hm', if_true, if_false] at h1 h2
+        rcases mem_aset _ _ _ _ h1 with h1 | h1
+        · rw [Prod.mk.injEq] at h1; have := old m' k2 h2; omega
+        · have := hs.inj i m' k1 k2 a h1 h2; exact ⟨by rw [hm]; exact this.1, this.2⟩
+      · simp only [hm, hm', if_true, if_false] at h1 h2
+        rcases mem_aset _ _ _ _ h2 with h2 | h2
+        · rw [Prod.mk.injEq] at h2; have := old m k1 h1; omega
+        · have := hs.inj m i k1 k2 a h1 h2; exact ⟨by rw [hm']; exact this.1, this.2⟩
+      · simp only [hm, hm', if_false] at h1 h2
+        exact hs.inj m m' k1 k2 a h1 h2
+  · simp only [allocBind]
+    rw [metas_setRefs]
+    rfl
+
+/-- B: the object under `k` is changed in place -/
+theorem writeSlot_ok (w : World) (i : Nat) (k : Taxon) (r : Row) (hs : Sep w) (hk : hHas w i k = true) :
+    StepOK i w (writeSlot w i k r) (set k r (rowsOf w i)) := by
+  simp only [hHas, Option.isSome_iff_exists] at hk
+  obtain ⟨a, ha⟩ := hk
+  have hmem := mem_of_aget? k a _ ha
+  have hw : writeSlot w i k r = { w with heap := w.heap.set a r } := by simp [writeSlot, ha]
+  have hrefs : ∀ m, refsOf (writeSlot w i k r) m = refsOf w m := by intro m; rw [hw]; rfl
+  have hheap : (writeSlot w i k r).heap = w.heap.set a r := by rw [hw]
+  have hb : a < w.heap.length := hs.bound i a (by simp only [addrs, List.mem_map]; exact ⟨(k, a), hmem, rfl⟩)
+  refine ⟨?_, ?_, ?_, ?_⟩
+  · simp only [rowsOf, hrefs, hheap]
+    exact deref_set_at _ a r _ k hmem hb (fun k' hk' => (hs.inj i i k' k a hk' hmem).2) (hs.keysNd i)
+  · intro m hm
+    simp only [rowsOf, hrefs, hheap]
+    apply deref_set_notin
+    intro hin
+    simp only [addrs, List.mem_map] at hin
+    obtain ⟨p, hp, hpa⟩ := hin
+    have := hs.inj m i p.1 k a (by rw [← hpa]; exact hp) hmem
+    exact hm this.1
+  · refine ⟨?_, ?_, ?_⟩
+    · intro m a' ha'
+      rw [hheap, List.length_set]; rw [hrefs] at ha'; exact hs.bound m a' ha'
+    · intro m; rw [hrefs]; exact hs.keysNd m
+    · intro m m' k1 k2 a' h1 h2; rw [hrefs] at h1 h2; exact hs.inj m m' k1 k2 a' h1 h2
+  · rw [hw]; rfl
+
+/-- C: `del map[k]` -/
+theorem unbind_ok (w : World) (i : Nat) (k : Taxon) (hs : Sep w) (hi : i < w.mats.length) :
+    StepOK i w (unbind w i k) (del k (rowsOf w i)) := by
+  have hrefs : ∀ m, refsOf (unbind w i k) m = if m = i then adel k (refsOf w i) else refsOf w m := by
+    intro m; simp only [unbind]; exact refsOf_setRefs w i _ m hi
+  have hheap : (unbind w i k).heap = w.heap := rfl
+  refine ⟨?_, ?_, ?_, ?_⟩
+  · simp only [rowsOf, hrefs, hheap, if_true, deref_adel]
+  · intro m hm; simp only [rowsOf, hrefs, hheap, hm, if_false]
+  · have sub : ∀ m p, p ∈ refsOf (unbind w i k) m → p ∈ refsOf w m := by
+      intro m p hp
+      rw [hrefs] at hp
+      by_cases hm : m = i
+      · simp only [hm, if_true] at hp; rw [hm]; exact mem_adel _ _ _ hp
+      · simpa only [hm, if_false] using hp
+    refine ⟨?_, ?_, ?_⟩
+    · intro m a ha
+      simp only [addrs, List.mem_map] at ha
+      obtain ⟨p, hp, hpa⟩ := ha
+      rw [hheap]
+      exact hs.bound m a (by simp only [addrs, List.mem_map]; exact ⟨p, sub m p hp, hpa⟩)
+    · intro m
+      rw [hrefs]
+      by_cases hm : m = i
+      · simp only [hm, if_true]; exact akeys_adel_nodup _ _ (hs.keysNd i)
+      · simp only [hm, if_false]; exact hs.keysNd m
+    · intro m m' k1 k2 a h1 h2
+      exact hs.inj m m' k1 k2 a (sub _ _ h1) (sub _ _ h2)
+  · exact metas_setRefs w i _
+
+theorem stepOK_refl (i : Nat) (w : World) (hs : Sep w) : StepOK i w w (rowsOf w i) :=
+  ⟨rfl, fun _ _ => rfl, hs, rfl⟩
+
+end DendroModel.C19.Aux
+
+namespace DendroModel.C19.Aux
+open DendroModel.C19
+
+theorem binFn_eq_foldl (op : BinOp) (s o : Rows) : binFn op s o = o.foldl (vBin op) s := by
+  cases op <;> rfl
+
+/-- every value-level step touches the row of the visited taxon only -/
+theorem vBin_local (op : BinOp) (acc : Rows) (k : Taxon) (r : Row) (u : Taxon) (hu : u ≠ k) :
+    get? u (vBin op acc (k, r)) = get? u acc := by
+  cases op <;> simp only [vBin] <;> (repeat' split) <;> first | rfl | exact get?_set_ne k u _ acc hu
+
+theorem map_keys_rowOf (o : Rows) (hnd : (keys o).Nodup) : (keys o).map (fun k => (k, rowOf k o)) = o := by
+  induction o with
+  | nil => rfl
+  | cons kv rest ih =>
+    obtain ⟨k, v⟩ := kv
+    simp only [keys, List.map_cons, List.nodup_cons] at hnd
+    have e : List.map (fun k' => (k', rowOf k' ((k, v) :: rest))) (keys rest) = List.map (fun k' => (k', rowOf k' rest)) (keys rest) := by
+      apply List.map_congr_left
+      intro k' hk'
+      have hne : k ≠ k' := fun he => hnd.1 (he ▸ hk')
+      simp [rowOf, get?, hne]
+    have hd : rowOf k ((k, v) :: rest) = v := by simp [rowOf, get?]
+    show (k, rowOf k ((k, v) :: rest)) :: List.map (fun k' => (k', rowOf k' ((k, v) :: rest))) (keys rest) = (k, v) :: rest
+    rw [e, hd, ih hnd.2]
+
+/-- one round on objects does what the value-level round does with the row the other matrix has NOW -/
+theorem hBinStep_ok (op : BinOp) (i j : Nat) (w : World) (k : Taxon) (hs : Sep w) (hi : i < w.mats.length) :
+    StepOK i w (hBinStep op i j w k) (vBin op (rowsOf w i) (k, rowOf k (rowsOf w j))) := by
+  have hp : hHas w i k = has k (rowsOf w i) := hHas_eq w i k
+  cases hpres : has k (rowsOf w i) <;> cases op <;>
+    simp only [hBinStep, vBin, hp, hpres, hRow_eq, Bool.false_eq_true, if_false, if_true, Bool.not_false, Bool.not_true] <;>
+    first
+      | exact stepOK_refl i w hs
+      | exact allocBind_ok w i k _ hs hi
+      | exact writeSlot_ok w i k _ hs (by rw [hp]; exact hpres)
+
+/-- the loop over the keys: live reading of the other matrix = reading a snapshot, also when the other matrix is the
+    matrix itself (every taxon is visited once, and a round changes the row of the visited taxon only) -/
+theorem fold_sim (i j : Nat) (hstep : World → Taxon → World) (vstep : Rows → Taxon × Row → Rows)
+    (hloc : ∀ acc k r u, u ≠ k → get? u (vstep acc (k, r)) = get? u acc)
+    (hsim : ∀ w k, Sep w → i < w.mats.length → StepOK i w (hstep w k) (vstep (rowsOf w i) (k, rowOf k (rowsOf w j)))) :
+    ∀ (ks : List Taxon), ks.Nodup → ∀ (w : World), Sep w → i < w.mats.length →
+      StepOK i w (ks.foldl hstep w) ((ks.map (fun k => (k, rowOf k (rowsOf w j)))).foldl vstep (rowsOf w i))
+  | [], _, w, hs, _ => stepOK_refl i w hs
+  | k :: rest, hnd, w, hs, hi => by
+    simp only [List.nodup_cons] at hnd
+    have h1 := hsim w k hs hi
+    have hi1 : i < (hstep w k).mats.length := by rw [length_of_metas _ _ h1.metas]; exact hi
+    have h2 := fold_sim i j hstep vstep hloc hsim rest hnd.2 (hstep w k) h1.sep hi1
+    have hsame : rest.map (fun k' => (k', rowOf k' (rowsOf (hstep w k) j))) = rest.map (fun k' => (k', rowOf k' (rowsOf w j))) := by
+      apply List.map_congr_left
+      intro k' hk'
+      have hne : k' ≠ k := fun he => hnd.1 (he ▸ hk')
+      by_cases hj : j = i
+      · subst hj
+        simp only [rowOf, h1.rows, hloc _ k _ k' hne]
+      · rw [h1.frame j hj]
+    refine ⟨?_, ?_, h2.sep, ?_⟩
+    · simp only [List.foldl_cons, List.map_cons]
+      rw [h2.rows, h1.rows, hsame]
+    · intro m hm
+      simp only [List.foldl_cons]
+      rw [h2.frame m hm, h1.frame m hm]
+    · simp only [List.foldl_cons]
+      rw [h2.metas, h1.metas]
+
+theorem hBinLoop_ok (op : BinOp) (i j : Nat) (w : World) (hs : Sep w) (hi : i < w.mats.length) :
+    StepOK i w (hBinLoop op i j w) (binFn op (rowsOf w i) (rowsOf w j)) := by
+  have hk : akeys (refsOf w j) = keys (rowsOf w j) := by simp [rowsOf, keys_deref]
+  have hnd : (keys (rowsOf w j)).Nodup := by rw [← hk]; exact hs.keysNd j
+  have := fold_sim i j (hBinStep op i j) (vBin op) (vBin_local op) (fun w k hs hi => hBinStep_ok op i j w k hs hi)
+    (keys (rowsOf w j)) hnd w hs hi
+  rw [map_keys_rowOf _ hnd, ← binFn_eq_foldl] at this
+  simpa only [hBinLoop, hk] using this
+
+end DendroModel.C19.Aux
+
+namespace DendroModel.C19
+
+/-- **Aliasing, the six row operations.**  On a pool without shared sequence objects, `self.op(other)` — `other` ANY matrix
+    object of the pool, ALSO `self` ITSELF (`i = j`: `m.extend_matrix(m)`, `m.update_sequences(m)`, `m.add_sequences(m)` …) —
+    leaves the rows of `self` equal to the value-level result computed from the two matrices as they were before the call,
+    the rows of every other matrix object (in particular of the argument, when it is another object) exactly as they were,
+    creates no shared object, and touches nothing but rows. -/
+theorem hBin_sim (op : BinOp) (w w' : World) (i j : Nat) (hs : Sep w) (h : hBin op w i j = .ok w') :
+    StepOK i w w' (binFn op (rowsOf w i) (rowsOf w j)) := by
+  simp only [hBin] at h
+  split at h
+  · next mi mj hmi hmj =>
+    split at h
+    · cases h
+    · cases h
+      have hi : i < w.mats.length := by
+        rcases Nat.lt_or_ge i w.mats.length with hlt | hge
+        · exact hlt
+        · rw [List.getElem?_eq_none hge] at hmi; cases hmi
+      exact Aux.hBinLoop_ok op i j w hs hi
+  · cases h
+
+/-- the same call is refused without any effect when the two matrices are over different namespaces, and a call that is not
+    refused is the value-level `rowOp` on the views -/
+theorem hBin_guard (op : BinOp) (w : World) (i j : Nat) (mi mj : HMat) (hi : w.mats[i]? = some mi) (hj : w.mats[j]? = some mj) :
+    (mj.ns ≠ mi.ns → hBin op w i j = .error .valueError ∧ rowOp (binFn op) (viewM w.heap mi) (viewM w.heap mj) = .error .valueError) ∧
+    (mj.ns = mi.ns → ∃ w', hBin op w i j = .ok w' ∧
+      rowOp (binFn op) (viewM w.heap mi) (viewM w.heap mj) = .ok { viewM w.heap mi with rows := binFn op (rowsOf w i) (rowsOf w j) }) := by
+  constructor
+  · intro hne
+    simp [hBin, hi, hj, hne, rowOp, viewM]
+  · intro heq
+    refine ⟨hBinLoop op i j w, by simp [hBin, hi, hj, heq], ?_⟩
+    simp [rowOp, viewM, heq, rowsOf, refsOf, hi, hj]
+
+/-- the matrix as its own argument: the result is that of the operation applied to two copies of the value -/
+theorem hBin_self (op : BinOp) (w w' : World) (i : Nat) (hs : Sep w) (h : hBin op w i i = .ok w') :
+    rowsOf w' i = binFn op (rowsOf w i) (rowsOf w i) ∧ (∀ m, m ≠ i → rowsOf w' m = rowsOf w m) ∧ Sep w' :=
+  let r := hBin_sim op w w' i i hs h
+  ⟨r.rows, r.frame, r.sep⟩
+
+end DendroModel.C19
+
+namespace DendroModel.C19.Aux
+open DendroModel.C19
+
+/-- a loop whose rounds do not look at another matrix -/
+theorem fold_simple {α : Type} (i : Nat) (hstep : World → α → World) (vstep : Rows → α → Rows)
+    (hsim : ∀ w a, Sep w → i < w.mats.length → StepOK i w (hstep w a) (vstep (rowsOf w i) a)) :
+    ∀ (l : List α) (w : World), Sep w → i < w.mats.length → StepOK i w (l.foldl hstep w) (l.foldl vstep (rowsOf w i))
+  | [], w, hs, _ => stepOK_refl i w hs
+  | a :: rest, w, hs, hi => by
+    have h1 := hsim w a hs hi
+    have hi1 : i < (hstep w a).mats.length := by rw [length_of_metas _ _ h1.metas]; exact hi
+    have h2 := fold_simple i hstep vstep hsim rest (hstep w a) h1.sep hi1
+    refine ⟨?_, ?_, h2.sep, ?_⟩
+    · simp only [List.foldl_cons]; rw [h2.rows, h1.rows]
+    · intro m hm; simp only [List.foldl_cons]; rw [h2.frame m hm, h1.frame m hm]
+    · simp only [List.foldl_cons]; rw [h2.metas, h1.metas]
+
+theorem hRemove_ok (i : Nat) : ∀ (taxa : List Taxon) (w : World), Sep w → i < w.mats.length →
+    StepOK i w (hRemove i taxa w).1 (removeSeqs taxa (rowsOf w i)).1 ∧ (hRemove i taxa w).2 = (removeSeqs taxa (rowsOf w i)).2
+  | [], w, hs, _ => ⟨stepOK_refl i w hs, rfl⟩
+  | t :: ts, w, hs, hi => by
+    simp only [hRemove, removeSeqs, hHas_eq]
+    cases hp : has t (rowsOf w i)
+    · simp only [Bool.false_eq_true, if_false]
+      exact ⟨stepOK_refl i w hs, by first | trivial | rfl⟩
+    · simp only [if_true]
+      have h1 := unbind_ok w i t hs hi
+      have hi1 : i < (unbind w i t).mats.length := by rw [length_of_metas _ _ h1.metas]; exact hi
+      have h2 := hRemove_ok i ts (unbind w i t) h1.sep hi1
+      rw [h1.rows] at h2
+      refine ⟨⟨h2.1.rows, ?_, h2.1.sep, ?_⟩, h2.2⟩
+      · intro m hm; rw [h2.1.frame m hm, h1.frame m hm]
+      · rw [h2.1.metas, h1.metas]
+
+theorem hDiscard_ok (i : Nat) (taxa : List Taxon) (w : World) (hs : Sep w) (hi : i < w.mats.length) :
+    StepOK i w (hDiscard i taxa w) (discardSeqs taxa (rowsOf w i)) := by
+  apply fold_simple i _ (fun acc t => if has t acc then del t acc else acc) _ taxa w hs hi
+  intro w t hs hi
+  simp only [hHas_eq]
+  cases has t (rowsOf w i)
+  · simpa using stepOK_refl i w hs
+  · simpa using unbind_ok w i t hs hi
+
+theorem hKeep_ok (i : Nat) (taxa : List Taxon) (w : World) (hs : Sep w) (hi : i < w.mats.length) :
+    StepOK i w (hKeep i taxa w) (keepSeqs taxa (rowsOf w i)) := by
+  have hk : akeys (refsOf w i) = keys (rowsOf w i) := by simp [rowsOf, keys_deref]
+  simp only [hKeep, keepSeqs, hk]
+  apply fold_simple i _ (fun acc k => if taxa.contains k then acc else del k acc) _ _ w hs hi
+  intro w t hs hi
+  cases taxa.contains t
+  · simpa using unbind_ok w i t hs hi
+  · simpa using stepOK_refl i w hs
+
+theorem aget?_adel_ne (t u : Taxon) (refs : Refs) (h : u ≠ t) : aget? u (adel t refs) = aget? u refs := by
+  induction refs with
+  | nil => simp [adel, aget?]
+  | cons kv rest ih =>
+    obtain ⟨k, a⟩ := kv
+    simp only [adel] at ih
+    by_cases hk : k = t
+    · subst hk
+      have : ¬ k = u := fun he => h he.symm
+      simp [adel, aget?, this, ih]
+    · by_cases hu : k = u
+      · subst hu; simp [adel, aget?, hk]
+      · simp [adel, aget?, hk, hu, ih]
+
+/-- deleting `t` from matrix `i` does not change whether ANOTHER taxon is a key of matrix `j` (also for `j = i`) -/
+theorem hHas_unbind_ne (w : World) (i j : Nat) (t u : Taxon) (hi : i < w.mats.length) (h : u ≠ t) :
+    hHas (unbind w i t) j u = hHas w j u := by
+  simp only [hHas, unbind, refsOf_setRefs w i _ j hi]
+  by_cases hj : j = i
+  · simp only [hj, if_true, aget?_adel_ne t u _ h]
+  · simp only [hj, if_false]
+
+theorem hRemoveM_eq (i j : Nat) (hij : True) : ∀ (ts : List Taxon) (w : World), ts.Nodup → i < w.mats.length →
+    hRemoveM i j ts w = hRemove i (ts.filter (hHas w j)) w
+  | [], w, _, _ => rfl
+  | t :: ts, w, hnd, hi => by
+    simp only [List.nodup_cons] at hnd
+    simp only [hRemoveM, List.filter_cons]
+    cases hj : hHas w j t
+    · simp only [Bool.false_eq_true, if_false]
+      exact hRemoveM_eq i j hij ts w hnd.2 hi
+    · simp only [if_true, hRemove]
+      cases hiT : hHas w i t
+      · simp
+      · simp only [if_true]
+        have hlen : i < (unbind w i t).mats.length := by simp only [unbind, setRefs, length_modAt]; exact hi
+        rw [hRemoveM_eq i j hij ts (unbind w i t) hnd.2 hlen]
+        congr 1
+        apply List.filter_congr
+        intro u hu
+        exact hHas_unbind_ne w i j t u hi (fun he => hnd.1 (he ▸ hu))
+
+theorem hDiscardM_eq (i j : Nat) : ∀ (ts : List Taxon) (w : World), ts.Nodup → i < w.mats.length →
+    hDiscardM i j ts w = hDiscard i (ts.filter (hHas w j)) w
+  | [], w, _, _ => rfl
+  | t :: ts, w, hnd, hi => by
+    simp only [List.nodup_cons] at hnd
+    simp only [hDiscardM, hDiscard, List.foldl_cons, List.filter_cons]
+    cases hj : hHas w j t
+    · simp only [Bool.false_eq_true, if_false]
+      exact hDiscardM_eq i j ts w hnd.2 hi
+    · simp only [if_true, List.foldl_cons]
+      cases hiT : hHas w i t
+      · simp only [Bool.false_eq_true, if_false]
+        exact hDiscardM_eq i j ts w hnd.2 hi
+      · simp only [if_true]
+        have hlen : i < (unbind w i t).mats.length := by simp only [unbind, setRefs, length_modAt]; exact hi
+        have := hDiscardM_eq i j ts (unbind w i t) hnd.2 hlen
+        simp only [hDiscardM, hDiscard] at this
+        rw [this]
+        congr 1
+        apply List.filter_congr
+        intro u hu
+        exact hHas_unbind_ne w i j t u hi (fun he => hnd.1 (he ▸ hu))
+
+theorem hMapNs_ok (f : Row → Row) (i : Nat) (taxa : List Taxon) (w : World) (hs : Sep w) (hi : i < w.mats.length) :
+    StepOK i w (hMapNs f i taxa w) (mapNsRows f taxa (rowsOf w i)) := by
+  simp only [hMapNs, mapNsRows]
+  apply fold_simple i _ (fun acc t => match get? t acc with
+    | some r => set t (f r) acc
+    | none => acc) _ taxa w hs hi
+  intro w t hs hi
+  have h1 : hHas w i t = (get? t (rowsOf w i)).isSome := by rw [hHas_eq]; rfl
+  have h2 : hRow w i t = (get? t (rowsOf w i)).getD [] := by rw [hRow_eq]; rfl
+  cases hg : get? t (rowsOf w i) with
+  | none => simp only [h1, hg, Option.isSome_none, Bool.false_eq_true, if_false]; exact stepOK_refl i w hs
+  | some r =>
+    simp only [h1, h2, hg, Option.isSome_some, if_true, Option.getD_some]
+    exact writeSlot_ok w i t _ hs (by rw [h1, hg]; rfl)
+
+theorem hFillTaxa_ok (i : Nat) (w : World) (hs : Sep w) (hi : i < w.mats.length) :
+    StepOK i w (hFillTaxa i w) (fillTaxa (taxaOf w i) (rowsOf w i)) := by
+  simp only [hFillTaxa, fillTaxa]
+  apply fold_simple i _ (fun acc t => if has t acc then acc else set t [] acc) _ _ w hs hi
+  intro w t hs hi
+  simp only [hHas_eq]
+  cases has t (rowsOf w i)
+  · simpa using allocBind_ok w i t [] hs hi
+  · simpa using stepOK_refl i w hs
+
+end DendroModel.C19.Aux
+
+namespace DendroModel.C19
+
+/-- **remove / discard / keep on objects** = the value-level operations on the view; other matrices untouched; no sharing created -/
+theorem hUnary_sim (i : Nat) (taxa : List Taxon) (w : World) (hs : Sep w) (hi : i < w.mats.length) :
+    (StepOK i w (hRemove i taxa w).1 (removeSeqs taxa (rowsOf w i)).1 ∧ (hRemove i taxa w).2 = (removeSeqs taxa (rowsOf w i)).2) ∧
+    StepOK i w (hDiscard i taxa w) (discardSeqs taxa (rowsOf w i)) ∧
+    StepOK i w (hKeep i taxa w) (keepSeqs taxa (rowsOf w i)) :=
+  ⟨Aux.hRemove_ok i taxa w hs hi, Aux.hDiscard_ok i taxa w hs hi, Aux.hKeep_ok i taxa w hs hi⟩
+
+/-- **the taxa argument is a matrix** (`m.remove_sequences(o)`, `m.discard_sequences(o)`, `m.keep_sequences(o)`, ALSO `o = m`):
+    the generator `o.__iter__` that is consumed WHILE rows are deleted yields exactly what it would have yielded before the call
+    (`iterKeys`: the taxa of the namespace that have a row in `o`), because a deletion changes the membership of the deleted
+    taxon only and the namespace lists every taxon once.  No separation hypothesis: nothing is read from the heap. -/
+theorem hUnaryM_snapshot (i j : Nat) (w : World) (hnd : (taxaOf w j).Nodup) (hi : i < w.mats.length) :
+    hRemoveM i j (taxaOf w j) w = hRemove i (iterKeys w j) w ∧
+    hDiscardM i j (taxaOf w j) w = hDiscard i (iterKeys w j) w ∧
+    hKeepM i j w = hKeep i (iterKeys w j) w :=
+  ⟨Aux.hRemoveM_eq i j trivial _ w hnd hi, Aux.hDiscardM_eq i j _ w hnd hi, rfl⟩
+
+/-- **fill / fill_taxa / pack on objects** (the padding loop changes the sequence objects in place) = the value-level operations -/
+theorem hFill_sim (v : Cell) (size : Option Nat) (app : Bool) (i : Nat) (w : World) (hs : Sep w) (hi : i < w.mats.length) :
+    StepOK i w (hFill v size app i w) (fillRows v size app (taxaOf w i) (rowsOf w i)) ∧
+    StepOK i w (hFillTaxa i w) (fillTaxa (taxaOf w i) (rowsOf w i)) ∧
+    StepOK i w (hPack v size app i w) (packRows v size app (taxaOf w i) (rowsOf w i)) := by
+  refine ⟨Aux.hMapNs_ok _ i _ w hs hi, Aux.hFillTaxa_ok i w hs hi, ?_⟩
+  have h1 := Aux.hFillTaxa_ok i w hs hi
+  have hi1 : i < (hFillTaxa i w).mats.length := by rw [Aux.length_of_metas _ _ h1.metas]; exact hi
+  have h2 := Aux.hMapNs_ok (padLoop v (fillSize size (taxaOf (hFillTaxa i w) i) (rowsOf (hFillTaxa i w) i)) app) i
+    (taxaOf (hFillTaxa i w) i) (hFillTaxa i w) h1.sep hi1
+  rw [Aux.taxaOf_of_metas _ _ h1.metas, h1.rows] at h2
+  have e : hPack v size app i w = hMapNs (padLoop v (fillSize size (taxaOf w i) (fillTaxa (taxaOf w i) (rowsOf w i))) app) i
+      (taxaOf w i) (hFillTaxa i w) := by
+    simp only [hPack, hFill]
+    rw [Aux.taxaOf_of_metas _ _ h1.metas, h1.rows]
+  rw [e]
+  exact ⟨h2.rows, fun m hm => by rw [h2.frame m hm, h1.frame m hm], h2.sep, by rw [h2.metas, h1.metas]⟩
+
+end DendroModel.C19
+
+namespace DendroModel.C19.Aux
+open DendroModel.C19
+
+/-- separation speaks about the dicts and the SIZE of the heap only -/
+theorem sep_of_refs (w w' : World) (hr : ∀ m, refsOf w' m = refsOf w m) (hl : w.heap.length ≤ w'.heap.length) (hs : Sep w) :
+    Sep w' := by
+  refine ⟨?_, ?_, ?_⟩
+  · intro m a ha; rw [hr] at ha; exact Nat.lt_of_lt_of_le (hs.bound m a ha) hl
+  · intro m; rw [hr]; exact hs.keysNd m
+  · intro m m' k k' a h1 h2; rw [hr] at h1 h2; exact hs.inj m m' k k' a h1 h2
+
+theorem hClear_ok (w : World) (i : Nat) (hs : Sep w) (hi : i < w.mats.length) : StepOK i w (hClear w i) [] := by
+  have hrefs : ∀ m, refsOf (hClear w i) m = if m = i then [] else refsOf w m := by
+    intro m; simp only [hClear]; exact refsOf_setRefs w i _ m hi
+  refine ⟨?_, ?_, ⟨?_, ?_, ?_⟩, metas_setRefs w i _⟩
+  · simp [rowsOf, hrefs, deref]
+  · intro m hm; simp only [rowsOf, hrefs, hm, if_false]; rfl
+  · intro m a ha
+    rw [hrefs] at ha
+    by_cases hm : m = i
+    · simp [hm, addrs] at ha
+    · simp only [hm, if_false] at ha; exact hs.bound m a ha
+  · intro m; rw [hrefs]
+    by_cases hm : m = i
+    · simp [hm, akeys]
+    · simp only [hm, if_false]; exact hs.keysNd m
+  · intro m m' k k' a h1 h2
+    rw [hrefs] at h1 h2
+    by_cases hm : m = i
+    · simp [hm] at h1
+    · by_cases hm' : m' = i
+      · simp [hm'] at h2
+      · simp only [hm, hm', if_false] at h1 h2; exact hs.inj m m' k k' a h1 h2
+
+theorem hHas_eq_get? (w : World) (i : Nat) (t : Taxon) : (aget? t (refsOf w i)).isSome = (get? t (rowsOf w i)).isSome := by
+  simp [rowsOf, get?_deref]
+
+end DendroModel.C19.Aux
+
+namespace DendroModel.C19
+
+/-- **element access on objects** (`m[t]`, `m[t] = values`, `new_sequence`, `del m[t]`, `clear`): outcome (also the exception)
+    and rows are those of the value-level operation on any matrix value with these rows and this namespace; a successful call
+    is a `StepOK` (other matrices untouched, no sharing) -/
+theorem hElement_sim (w : World) (i : Nat) (t : Taxon) (row : Row) (M : Matrix) (hs : Sep w) (hi : i < w.mats.length)
+    (hrows : M.rows = rowsOf w i) (htaxa : M.taxa = taxaOf w i) :
+    (match hGetItem w i t, getItem M t with
+      | .ok (w', r), .ok (M', r') => r = r' ∧ StepOK i w w' M'.rows
+      | .error e, .error e' => e = e'
+      | _, _ => False) ∧
+    (match hSetItem w i t row, setItem M t row with
+      | .ok w', .ok M' => StepOK i w w' M'.rows
+      | .error e, .error e' => e = e'
+      | _, _ => False) ∧
+    (match hNewSeq w i t row, newSequence M t row with
+      | .ok w', .ok M' => StepOK i w w' M'.rows
+      | .error e, .error e' => e = e'
+      | _, _ => False) ∧
+    (match hDelItem w i t, delItem M t with
+      | .ok w', .ok M' => StepOK i w w' M'.rows
+      | .error e, .error e' => e = e'
+      | _, _ => False) ∧
+    StepOK i w (hClear w i) (clearRows M).rows := by
+  refine ⟨?_, ?_, ?_, ?_, Aux.hClear_ok w i hs hi⟩
+  · simp only [hGetItem, getItem, hrows, htaxa]
+    have hg := Aux.get?_deref w.heap (refsOf w i) t
+    cases ha : aget? t (refsOf w i) with
+    | some a =>
+      have : get? t (rowsOf w i) = some (hget w.heap a) := by simp [rowsOf, hg, ha]
+      simp only [this]
+      exact ⟨trivial, by rw [hrows]; exact Aux.stepOK_refl i w hs⟩
+    | none =>
+      have : get? t (rowsOf w i) = none := by simp [rowsOf, hg, ha]
+      simp only [this]
+      cases (taxaOf w i).contains t
+      · simp
+      · simp only [if_true]
+        exact ⟨trivial, Aux.allocBind_ok w i t [] hs hi⟩
+  · simp only [hSetItem, setItem, hrows, htaxa]
+    cases (taxaOf w i).contains t
+    · simp
+    · simp only [if_true]; exact Aux.allocBind_ok w i t row hs hi
+  · simp only [hNewSeq, newSequence, hrows, htaxa, Aux.hHas_eq]
+    cases has t (rowsOf w i)
+    · simp only [Bool.false_eq_true, if_false]
+      cases (taxaOf w i).contains t
+      · simp
+      · simp only [if_true]; exact Aux.allocBind_ok w i t row hs hi
+    · simp
+  · simp only [hDelItem, delItem, hrows, Aux.hHas_eq]
+    cases has t (rowsOf w i)
+    · simp
+    · simp only [if_true]; exact Aux.unbind_ok w i t hs hi
+
+end DendroModel.C19
+
+namespace DendroModel.C19.Aux
+open DendroModel.C19
+
+/-- the dict of a deep copy when no object is shared: the same keys, addresses `base, base+1, …` -/
+def freshRefs (base : Nat) : Refs → Refs
+  | [] => []
+  | (t, _) :: rest => (t, base) :: freshRefs (base + 1) rest
+
+theorem cloneLoop_distinct (f : Row → Row) (h0 : List Row) : ∀ (refs : Refs) (memo : List (Nat × Nat)) (heap : List Row) (acc : Refs),
+    (addrs refs).Nodup → (∀ a ∈ addrs refs, memo.lookup a = none) →
+    cloneLoop f h0 refs memo heap acc = (acc ++ freshRefs heap.length refs, heap ++ refs.map (fun p => f (hget h0 p.2)))
+  | [], _, _, _, _, _ => by simp [cloneLoop, freshRefs]
+  | (t, a) :: rest, memo, heap, acc, hnd, hmemo => by
+    simp only [addrs, List.map_cons, List.nodup_cons] at hnd
+    have hl : memo.lookup a = none := hmemo a (by simp [addrs])
+    simp only [cloneLoop, hl]
+    rw [cloneLoop_distinct f h0 rest _ _ _ hnd.2]
+    · simp [freshRefs, List.append_assoc]
+    · intro a' ha'
+      have hne : a' ≠ a := fun he => hnd.1 (he ▸ ha')
+      simp only [List.lookup_cons]
+      have : (a' == a) = false := by simp [hne]
+      rw [this]
+      exact hmemo a' (by simp only [addrs, List.map_cons, List.mem_cons]; right; exact ha')
+
+theorem akeys_freshRefs : ∀ (base : Nat) (refs : Refs), akeys (freshRefs base refs) = akeys refs
+  | _, [] => rfl
+  | b, (t, a) :: rest => by
+    have := akeys_freshRefs (b + 1) rest
+    simp only [akeys] at this
+    simp [freshRefs, akeys, this]
+
+theorem mem_freshRefs : ∀ (base : Nat) (refs : Refs) (k : Taxon) (a : Nat), (k, a) ∈ freshRefs base refs →
+    base ≤ a ∧ a < base + refs.length
+  | _, [], _, _, h => by simp [freshRefs] at h
+  | b, (t, a0) :: rest, k, a, h => by
+    simp only [freshRefs, List.mem_cons, Prod.mk.injEq] at h
+    rcases h with h | h
+    · simp only [List.length_cons]; omega
+    · have := mem_freshRefs (b + 1) rest k a h
+      simp only [List.length_cons]; omega
+
+theorem freshRefs_inj : ∀ (base : Nat) (refs : Refs) (k k' : Taxon) (a : Nat), (k, a) ∈ freshRefs base refs →
+    (k', a) ∈ freshRefs base refs → k = k'
+  | _, [], _, _, _, h, _ => by simp [freshRefs] at h
+  | b, (t, a0) :: rest, k, k', a, h1, h2 => by
+    simp only [freshRefs, List.mem_cons, Prod.mk.injEq] at h1 h2
+    rcases h1 with h1 | h1 <;> rcases h2 with h2 | h2
+    · rw [h1.1, h2.1]
+    · have := mem_freshRefs (b + 1) rest k' a h2; omega
+    · have := mem_freshRefs (b + 1) rest k a h1; omega
+    · exact freshRefs_inj (b + 1) rest k k' a h1 h2
+
+theorem hget_append_cons (pre : List Row) (x : Row) (xs : List Row) : hget (pre ++ x :: xs) pre.length = x := by
+  simp [hget]
+
+theorem deref_freshRefs (g : Taxon × Nat → Row) : ∀ (refs : Refs) (pre : List Row),
+    deref (pre ++ refs.map g) (freshRefs pre.length refs) = refs.map (fun p => (p.1, g p))
+  | [], _ => by simp [deref, freshRefs]
+  | (t, a) :: rest, pre => by
+    have ih := deref_freshRefs g rest (pre ++ [g (t, a)])
+    simp only [List.length_append, List.length_singleton, List.append_assoc, List.singleton_append] at ih
+    simp only [freshRefs, List.map_cons, deref] at ih ⊢
+    rw [ih, hget_append_cons]
+
+theorem refsOf_push (w : World) (m0 : HMat) (h : List Row) (k : Nat) :
+    refsOf { heap := h, mats := w.mats ++ [m0] } k =
+      if k < w.mats.length then refsOf w k else if k = w.mats.length then m0.refs else [] := by
+  simp only [refsOf]
+  by_cases hk : k < w.mats.length
+  · simp [hk, List.getElem?_append_left hk]
+  · by_cases hk' : k = w.mats.length
+    · subst hk'; simp
+    · have : w.mats.length + 1 ≤ k := by omega
+      simp [hk, hk', List.getElem?_eq_none (l := w.mats ++ [m0]) (by simpa using this)]
+
+theorem addrs_nodup : ∀ (refs : Refs), (akeys refs).Nodup → (∀ k k' a, (k, a) ∈ refs → (k', a) ∈ refs → k = k') →
+    (addrs refs).Nodup
+  | [], _, _ => by simp [addrs]
+  | (k, a) :: rest, hk, hinj => by
+    simp only [akeys, List.map_cons, List.nodup_cons] at hk
+    simp only [addrs, List.map_cons, List.nodup_cons]
+    refine ⟨?_, addrs_nodup rest hk.2 (fun k1 k2 a' h1 h2 => hinj k1 k2 a' (by simp [h1]) (by simp [h2]))⟩
+    intro hin
+    simp only [List.mem_map] at hin
+    obtain ⟨p, hp, hpa⟩ := hin
+    have := hinj k p.1 a (by simp) (by simp only [List.mem_cons]; right; rw [← hpa]; exact hp)
+    apply hk.1
+    simp only [List.mem_map]
+    exact ⟨p, hp, this.symm⟩
+
+end DendroModel.C19.Aux
+
+namespace DendroModel.C19
+
+/-- what an operation that makes a NEW matrix object has to establish: it is appended to the pool with rows `R`, every matrix
+    that was there has the rows it had, no sharing (in particular none between the new matrix and its sources) -/
+structure FreshOK (w w' : World) (R : Rows) : Prop where
+  len : w'.mats.length = w.mats.length + 1
+  rows : rowsOf w' w.mats.length = R
+  frame : ∀ m, m < w.mats.length → rowsOf w' m = rowsOf w m
+  sep : Sep w'
+  metas : (metas w').take w.mats.length = metas w
+
+/-- **copy construction and column export on objects**: on a pool without shared objects the deep copy has one new object
+    per row (`f` applied to each: the identity for `cls(m)`, the column filter for `export_character_indices`), the source and
+    every other matrix keep their rows, and the result shares nothing with anything -/
+theorem hCloneWith_sim (f : Row → Row) (keepSubs : Bool) (w w' : World) (i : Nat) (hs : Sep w)
+    (h : hCloneWith f keepSubs w i = .ok w') :
+    FreshOK w w' ((rowsOf w i).map (fun p => (p.1, f p.2))) := by
+  simp only [hCloneWith] at h
+  split at h
+  · cases h
+  · next m hm =>
+    have hrefs : refsOf w i = m.refs := by simp [refsOf, hm]
+    have hnd : (Aux.addrs m.refs).Nodup := by
+      rw [← hrefs]
+      exact Aux.addrs_nodup _ (hs.keysNd i) (fun k k' a h1 h2 => (hs.inj i i k k' a h1 h2).2)
+    have hcl := Aux.cloneLoop_distinct f w.heap m.refs [] w.heap [] hnd (by intro a _; rfl)
+    simp only [hcl, List.nil_append] at h
+    cases h
+    have hpush := Aux.refsOf_push w { m with refs := Aux.freshRefs w.heap.length m.refs, subs := if keepSubs then m.subs else [] }
+      (w.heap ++ List.map (fun p => f (hget w.heap p.2)) m.refs)
+    refine ⟨by simp, ?_, ?_, ⟨?_, ?_, ?_⟩, ?_⟩
+    · simp only [rowsOf, hpush, Nat.lt_irrefl, if_false, if_true]
+      rw [Aux.deref_freshRefs (fun p => f (hget w.heap p.2)) m.refs w.heap, hrefs]
+      simp [deref, List.map_map, Function.comp_def]
+    · intro k hk
+      simp only [rowsOf, hpush, hk, if_true]
+      exact Aux.deref_append _ _ _ (hs.bound k)
+    · intro k a ha
+      rw [hpush] at ha
+      simp only [List.length_append, List.length_map]
+      by_cases hk : k < w.mats.length
+      · simp only [hk, if_true] at ha; have := hs.bound k a ha; omega
+      · by_cases hk' : k = w.mats.length
+        · subst hk'
+          simp only [Nat.lt_irrefl, if_false, if_true, Aux.addrs, List.mem_map] at ha
+          obtain ⟨p, hp, hpa⟩ := ha
+          have := Aux.mem_freshRefs _ _ p.1 p.2 hp
+          omega
+        · simp [hk, hk', Aux.addrs] at ha
+    · intro k
+      rw [hpush]
+      by_cases hk : k < w.mats.length
+      · simp only [hk, if_true]; exact hs.keysNd k
+      · by_cases hk' : k = w.mats.length
+        · subst hk'
+          simp only [Nat.lt_irrefl, if_false, if_true, Aux.akeys_freshRefs]; rw [← hrefs]; exact hs.keysNd i
+        · simp [hk, hk', akeys]
+    · intro k k' t t' a h1 h2
+      rw [hpush] at h1 h2
+      have old : ∀ k0 t0, (t0, a) ∈ refsOf w k0 → a < w.heap.length := fun k0 t0 hmem =>
+        hs.bound k0 a (by simp only [Aux.addrs, List.mem_map]; exact ⟨(t0, a), hmem, rfl⟩)
+      by_cases hk : k < w.mats.length <;> by_cases hk2 : k' < w.mats.length
+      · simp only [hk, hk2, if_true] at h1 h2; exact hs.inj k k' t t' a h1 h2
+      · simp only [hk, hk2, if_true, if_false] at h1 h2
+        by_cases hk' : k' = w.mats.length
+        · subst hk'
+          simp only [if_true] at h2
+          have := Aux.mem_freshRefs _ _ t' a h2; have := old k t h1; omega
+        · simp [hk'] at h2
+      · simp only [hk, hk2, if_true, if_false] at h1 h2
+        by_cases hk' : k = w.mats.length
+        · subst hk'
+          simp only [if_true] at h1
+          have := Aux.mem_freshRefs _ _ t a h1; have := old k' t' h2; omega
+        · simp [hk'] at h1
+      · simp only [hk, hk2, if_false] at h1 h2
+        by_cases hk' : k = w.mats.length <;> by_cases hk2' : k' = w.mats.length
+        · subst hk'; subst hk2'
+          simp only [if_true] at h1 h2
+          exact ⟨rfl, Aux.freshRefs_inj _ _ t t' a h1 h2⟩
+        · simp [hk2'] at h2
+        · simp [hk'] at h1
+        · simp [hk'] at h1
+    · simp [metas]
+
+end DendroModel.C19
+
+namespace DendroModel.C19
+
+/-- the calls into the library proper: everything but the two by which the USER makes two dict entries hold one object
+    (`m[t] = <sequence object>`, `copy.copy(m)`) -/
+def HCall.library : HCall → Prop
+  | .setSeq _ _ _ _ => False
+  | .copy _ => False
+  | _ => True
+
+end DendroModel.C19
+
+namespace DendroModel.C19.Aux
+open DendroModel.C19
+
+theorem refsOf_modAt_meta (w : World) (i : Nat) (f : HMat → HMat) (hf : ∀ m, (f m).refs = m.refs) (k : Nat) :
+    refsOf { w with mats := modAt i f w.mats } k = refsOf w k := by
+  simp only [refsOf, getElem?_modAt]
+  by_cases hk : k = i
+  · subst hk; cases w.mats[k]? <;> simp [hf]
+  · simp [hk]
+
+theorem length_unbind (w : World) (i : Nat) (t : Taxon) : (unbind w i t).mats.length = w.mats.length := by
+  simp only [unbind, setRefs, length_modAt]
+
+theorem hRemoveM_sep (i j : Nat) : ∀ (ts : List Taxon) (w : World), Sep w → i < w.mats.length → Sep (hRemoveM i j ts w).1
+  | [], _, hs, _ => hs
+  | t :: ts, w, hs, hi => by
+    simp only [hRemoveM]
+    cases hHas w j t
+    · simp only [Bool.false_eq_true, if_false]; exact hRemoveM_sep i j ts w hs hi
+    · simp only [if_true]
+      cases hHas w i t
+      · simpa using hs
+      · simp only [if_true]
+        exact hRemoveM_sep i j ts _ (unbind_ok w i t hs hi).sep (by rw [length_unbind]; exact hi)
+
+theorem hDiscardM_sep (i j : Nat) : ∀ (ts : List Taxon) (w : World), Sep w → i < w.mats.length → Sep (hDiscardM i j ts w)
+  | [], _, hs, _ => hs
+  | t :: ts, w, hs, hi => by
+    simp only [hDiscardM, List.foldl_cons]
+    cases hHas w j t
+    · simp only [Bool.false_eq_true, if_false]; exact hDiscardM_sep i j ts w hs hi
+    · simp only [if_true]
+      cases hHas w i t
+      · simp only [Bool.false_eq_true, if_false]; exact hDiscardM_sep i j ts w hs hi
+      · simp only [if_true]
+        exact hDiscardM_sep i j ts _ (unbind_ok w i t hs hi).sep (by rw [length_unbind]; exact hi)
+
+theorem sep_push_empty (w : World) (m0 : HMat) (h0 : m0.refs = []) (hs : Sep w) :
+    Sep { w with mats := w.mats ++ [m0] } := by
+  have hpush := refsOf_push w m0 w.heap
+  have hr : ∀ k, refsOf { w with mats := w.mats ++ [m0] } k = refsOf w k := by
+    intro k
+    rw [show ({ w with mats := w.mats ++ [m0] } : World) = { heap := w.heap, mats := w.mats ++ [m0] } from rfl, hpush]
+    by_cases hk : k < w.mats.length
+    · simp [hk]
+    · have : refsOf w k = [] := by simp [refsOf, List.getElem?_eq_none (Nat.le_of_not_lt hk)]
+      by_cases hk' : k = w.mats.length
+      · subst hk'; simp [h0, this]
+      · simp [hk, hk', this]
+  exact sep_of_refs w _ hr (Nat.le_refl _) hs
+
+theorem hConcatLoop_sep (ns : Nat) (taxa : List Taxon) (nseqs n : Nat) :
+    ∀ (args : List Nat) (st st' : World × List (Label × List Nat) × Nat) (cidx : Nat), Sep st.1 → n < st.1.mats.length →
+      hConcatLoop ns taxa nseqs n st cidx args = .ok st' → Sep st'.1 ∧ st'.1.mats.length = st.1.mats.length
+  | [], st, st', _, hs, _, h => by simp only [hConcatLoop] at h; cases h; exact ⟨hs, rfl⟩
+  | j :: rest, st, st', cidx, hs, hn, h => by
+    simp only [hConcatLoop] at h
+    split at h
+    · cases h
+    · next st1 h1 =>
+      simp only [hConcatStep] at h1
+      split at h1
+      · cases h1
+      · split at h1
+        · cases h1
+        · cases h1
+          have ok := hBinLoop_ok .extendMatrix n j st.1 hs hn
+          have hl := length_of_metas _ _ ok.metas
+          have := hConcatLoop_sep ns taxa nseqs n rest _ st' (cidx + 1) ok.sep (by rw [hl]; exact hn) h
+          exact ⟨this.1, by rw [this.2, hl]⟩
+
+end DendroModel.C19.Aux
+
+namespace DendroModel.C19
+
+/-- **No operation of the library creates sharing.**  If no two dict entries of the pool hold one sequence object, then after
+    any call other than `m[t] = <sequence object>` and `copy.copy(m)` — whatever its outcome, whichever matrices it names,
+    the same one twice included — still no two do. -/
+theorem hStep_sep (w : World) (c : HCall) (hs : Sep w) (hlib : c.library) (hv : ∀ i ∈ c.positions, i < w.mats.length) :
+    Sep (hStep w c).1 := by
+  cases c with
+  | bin op i j =>
+    simp only [hStep]
+    cases h : hBin op w i j with
+    | error e => exact hs
+    | ok w' => exact (hBin_sim op w w' i j hs h).sep
+  | remove i taxa => exact (Aux.hRemove_ok i taxa w hs (hv i (by simp [HCall.positions]))).1.sep
+  | discard i taxa => exact (Aux.hDiscard_ok i taxa w hs (hv i (by simp [HCall.positions]))).sep
+  | keep i taxa => exact (Aux.hKeep_ok i taxa w hs (hv i (by simp [HCall.positions]))).sep
+  | removeM i j => exact Aux.hRemoveM_sep i j _ w hs (hv i (by simp [HCall.positions]))
+  | discardM i j => exact Aux.hDiscardM_sep i j _ w hs (hv i (by simp [HCall.positions]))
+  | keepM i j => exact (Aux.hKeep_ok i _ w hs (hv i (by simp [HCall.positions]))).sep
+  | fill i v size app => exact (hFill_sim v size app i w hs (hv i (by simp [HCall.positions]))).1.sep
+  | fillTaxa i => exact (hFill_sim 0 none true i w hs (hv i (by simp [HCall.positions]))).2.1.sep
+  | pack i v size app => exact (hFill_sim v size app i w hs (hv i (by simp [HCall.positions]))).2.2.sep
+  | getItem i t =>
+    have hi := hv i (by simp [HCall.positions])
+    simp only [hStep, hGetItem]
+    cases aget? t (refsOf w i) with
+    | some a => exact hs
+    | none =>
+      cases (taxaOf w i).contains t
+      · exact hs
+      · exact (Aux.allocBind_ok w i t [] hs hi).sep
+  | setItem i t row =>
+    have hi := hv i (by simp [HCall.positions])
+    simp only [hStep, hSetItem]
+    cases (taxaOf w i).contains t
+    · exact hs
+    · exact (Aux.allocBind_ok w i t row hs hi).sep
+  | newSeq i t row =>
+    have hi := hv i (by simp [HCall.positions])
+    simp only [hStep, hNewSeq]
+    cases hHas w i t
+    · cases (taxaOf w i).contains t
+      · exact hs
+      · exact (Aux.allocBind_ok w i t row hs hi).sep
+    · exact hs
+  | delItem i t =>
+    have hi := hv i (by simp [HCall.positions])
+    simp only [hStep, hDelItem]
+    cases hHas w i t
+    · exact hs
+    · exact (Aux.unbind_ok w i t hs hi).sep
+  | clear i => exact (Aux.hClear_ok w i hs (hv i (by simp [HCall.positions]))).sep
+  | newSubset i lab idx =>
+    simp only [hStep, hNewSubset]
+    cases hm : w.mats[i]? with
+    | none => exact hs
+    | some m =>
+      simp only
+      cases hasSub m.subs lab
+      · exact Aux.sep_of_refs w _ (Aux.refsOf_modAt_meta w i _ (fun _ => rfl)) (Nat.le_refl _) hs
+      · exact hs
+  | clone i =>
+    simp only [hStep]
+    cases h : hClone w i with
+    | error e => exact hs
+    | ok w' => exact (hCloneWith_sim _ _ w w' i hs h).sep
+  | exportIdx i idx =>
+    simp only [hStep]
+    cases h : hExportIdx w i idx with
+    | error e => exact hs
+    | ok w' => exact (hCloneWith_sim _ _ w w' i hs h).sep
+  | exportSub i lab =>
+    simp only [hStep]
+    cases h : hExportSub w i lab with
+    | error e => exact hs
+    | ok w' =>
+      simp only [hExportSub] at h
+      split at h
+      · cases h
+      · split at h
+        · cases h
+        · exact (hCloneWith_sim _ _ w w' i hs h).sep
+  | concat args =>
+    simp only [hStep]
+    cases h : hConcat w args with
+    | error e => exact hs
+    | ok w' =>
+      simp only [hConcat] at h
+      split at h
+      · cases h
+      · split at h
+        · cases h
+        · next j0 _ m0 hm0 =>
+          split at h
+          · cases h
+          · next w1 subs pos hl =>
+            cases h
+            have hs0 := Aux.sep_push_empty w { ns := m0.ns, taxa := m0.taxa, label := none, refs := [], subs := [] } rfl hs
+            have key := fun hn => Aux.hConcatLoop_sep _ _ _ _ _ _ _ 0 hs0 hn hl
+            have := key (by simp)
+            exact Aux.sep_of_refs w1 _ (Aux.refsOf_modAt_meta w1 _ _ (fun _ => rfl)) (Nat.le_refl _) this.1
+  | setSeq i t j u => exact absurd hlib (by simp [HCall.library])
+  | copy i => exact absurd hlib (by simp [HCall.library])
+
+end DendroModel.C19
+
+namespace DendroModel.C19
+
+/-- every call of a history names matrices the pool has at that moment -/
+def validRun : World → List HCall → Prop
+  | _, [] => True
+  | w, c :: cs => (∀ i ∈ c.positions, i < w.mats.length) ∧ validRun (hStep w c).1 cs
+
+/-- **Histories.**  Starting from a pool without shared sequence objects, after ANY sequence of library calls (any operands,
+    repeated and self-referential ones included, any outcomes) the pool is again without shared objects — so each call of the
+    history is covered by `hBin_sim` / `hUnary_sim` / `hFill_sim` / `hElement_sim` / `hCloneWith_sim`: it acts on the value of its
+    matrix exactly as the value-level model says and on no other matrix at all. -/
+theorem hRun_sep : ∀ (cs : List HCall) (w : World), Sep w → (∀ c ∈ cs, c.library) → validRun w cs → Sep (hRun w cs)
+  | [], _, hs, _, _ => hs
+  | c :: cs, w, hs, hlib, hv => by
+    simp only [hRun, List.foldl_cons]
+    exact hRun_sep cs _ (hStep_sep w c hs (hlib c (by simp)) hv.1) (fun c' hc' => hlib c' (by simp [hc'])) hv.2
+
+end DendroModel.C19
+
+namespace DendroModel.C19.Aux
+open DendroModel.C19
+
+/-- non-vacuity: a separated world, and calls on it with equal operands -/
+def wEx : World :=
+  { heap := [[1, 2], [3]], mats := [{ ns := 0, taxa := [0, 1], label := none, refs := [(0, 0), (1, 1)], subs := [] }] }
+
+theorem wEx_refs (i : Nat) : refsOf wEx i = if i = 0 then [(0, 0), (1, 1)] else [] := by
+  cases i <;> simp [refsOf, wEx]
+
+theorem ex_sep : Sep wEx := by
+  refine ⟨?_, ?_, ?_⟩
+  · intro i a ha
+    rw [wEx_refs] at ha
+    by_cases hi : i = 0
+    · simp only [hi, if_true, addrs, List.map_cons, List.map_nil, List.mem_cons, List.not_mem_nil, or_false] at ha
+      rcases ha with h | h <;> subst h <;> decide
+    · simp [hi, addrs] at ha
+  · intro i
+    rw [wEx_refs]
+    by_cases hi : i = 0 <;> simp [hi, akeys]
+  · intro i i' k k' a h1 h2
+    rw [wEx_refs] at h1 h2
+    by_cases hi : i = 0
+    · by_cases hi' : i' = 0
+      · simp only [hi, hi', if_true, List.mem_cons, Prod.mk.injEq, List.not_mem_nil, or_false] at h1 h2
+        refine ⟨by rw [hi, hi'], ?_⟩
+        rcases h1 with ⟨h1a, h1b⟩ | ⟨h1a, h1b⟩ <;> rcases h2 with ⟨h2a, h2b⟩ | ⟨h2a, h2b⟩ <;> simp_all
+      · simp [hi'] at h2
+    · simp [hi] at h1
+
+example : ∃ w', hBin .extendMatrix wEx 0 0 = .ok w' ∧ rowsOf w' 0 = [(0, [1, 2, 1, 2]), (1, [3, 3])] ∧ Sep w' :=
+  ⟨_, rfl, rfl, (hBin_sim .extendMatrix wEx _ 0 0 ex_sep rfl).sep⟩
+
+example : ∃ w', hExportIdx wEx 0 [1] = .ok w' ∧ rowsOf w' 1 = [(0, [2]), (1, [])] ∧ rowsOf w' 0 = rowsOf wEx 0 :=
+  ⟨_, rfl, rfl, rfl⟩
+
+example : Sep (hRun wEx [.bin .update 0 0, .removeM 0 0, .fillTaxa 0, .clone 0, .concat [0, 1, 0]]) :=
+  hRun_sep _ wEx ex_sep (by intro c hc; simp at hc; rcases hc with h | h | h | h | h <;> subst h <;> trivial)
+    (by simp only [validRun]; decide)
+
+end DendroModel.C19.Aux
+
+/-! ## `concatenate` on objects -/
+
+namespace DendroModel.C19
+
+/-- the values of the matrices a call names (in the order it names them) -/
+def argViews (w : World) (args : List Nat) : List Matrix := args.filterMap (fun j => (views w)[j]?)
+
+end DendroModel.C19
+
+namespace DendroModel.C19.Aux
+open DendroModel.C19
+
+theorem concatStep_acc (ns : Nat) (taxa : List Taxon) (nseqs : Nat) (acc : Rows) (subs : List (Label × List Nat)) (pos cidx : Nat)
+    (cm : Matrix) :
+    concatStep ns taxa nseqs ⟨acc, subs, pos⟩ cidx cm =
+      (match concatStep ns taxa nseqs ⟨[], subs, pos⟩ cidx cm with
+        | .error e => .error e
+        | .ok st' => .ok { st' with acc := extendMatrix acc cm.rows }) := by
+  simp only [concatStep]
+  split; · rfl
+  split; · rfl
+  split; · rfl
+  split; · rfl
+  split; · rfl
+  split; · rfl
+  rfl
+
+theorem views_getElem? (w : World) (j : Nat) : (views w)[j]? = (w.mats[j]?).map (viewM w.heap) := by
+  simp [views]
+
+theorem view_congr (w w' : World) (j : Nat) (hm : metas w' = metas w) (hr : rowsOf w' j = rowsOf w j) :
+    (views w')[j]? = (views w)[j]? := by
+  have hj := congrArg (fun l => l[j]?) hm
+  simp only [metas, List.getElem?_map] at hj
+  simp only [views_getElem?]
+  simp only [rowsOf, refsOf] at hr
+  cases h1 : w'.mats[j]? with
+  | none => cases h2 : w.mats[j]? with
+    | none => rfl
+    | some m => simp [h1, h2] at hj
+  | some m' => cases h2 : w.mats[j]? with
+    | none => simp [h1, h2] at hj
+    | some m =>
+      simp only [h1, h2, Option.map_some, Option.some.injEq, Prod.mk.injEq] at hj
+      simp only [h1, h2] at hr
+      simp only [Option.map_some, viewM, hr, hj.1, hj.2.1, hj.2.2.1, hj.2.2.2]
+
+theorem argViews_congr (w w' : World) (args : List Nat) (hm : metas w' = metas w) (hr : ∀ j ∈ args, rowsOf w' j = rowsOf w j) :
+    argViews w' args = argViews w args := by
+  induction args with
+  | nil => rfl
+  | cons j rest ih =>
+    simp only [argViews, List.filterMap_cons] at ih ⊢
+    rw [view_congr w w' j hm (hr j (by simp))]
+    rw [ih (fun j' hj' => hr j' (by simp [hj']))]
+
+theorem hConcatLoop_sim (ns : Nat) (taxa : List Taxon) (nseqs n : Nat) :
+    ∀ (args : List Nat) (st st' : World × List (Label × List Nat) × Nat) (cidx : Nat), Sep st.1 → n < st.1.mats.length →
+      (∀ j ∈ args, j ≠ n) → hConcatLoop ns taxa nseqs n st cidx args = .ok st' →
+      ∃ cst, concatLoop ns taxa nseqs ⟨rowsOf st.1 n, st.2.1, st.2.2⟩ cidx (argViews st.1 args) = .ok cst ∧
+        rowsOf st'.1 n = cst.acc ∧ st'.2.1 = cst.subs ∧ st'.2.2 = cst.pos ∧
+        (∀ m, m ≠ n → rowsOf st'.1 m = rowsOf st.1 m) ∧ Sep st'.1 ∧ metas st'.1 = metas st.1
+  | [], st, st', _, hs, _, _, h => by
+    simp only [hConcatLoop] at h; cases h
+    exact ⟨_, rfl, rfl, rfl, rfl, fun _ _ => rfl, hs, rfl⟩
+  | j :: rest, st, st', cidx, hs, hn, hne, h => by
+    simp only [hConcatLoop] at h
+    split at h
+    · cases h
+    · next st1 h1 =>
+      simp only [hConcatStep] at h1
+      split at h1
+      · cases h1
+      · next mj hmj =>
+        split at h1
+        · cases h1
+        · next cst1 hc1 =>
+          cases h1
+          have ok := hBinLoop_ok .extendMatrix n j st.1 hs hn
+          have hl := length_of_metas _ _ ok.metas
+          have hjn : j ≠ n := hne j (by simp)
+          obtain ⟨cst, hloop, hrows, hsubs, hpos, hframe, hsep, hmet⟩ :=
+            hConcatLoop_sim ns taxa nseqs n rest _ st' (cidx + 1) ok.sep (by rw [hl]; exact hn)
+              (fun j' hj' => hne j' (by simp [hj'])) h
+          have hview : (views st.1)[j]? = some (viewM st.1.heap mj) := by simp [views_getElem?, hmj]
+          have hvrows : (viewM st.1.heap mj).rows = rowsOf st.1 j := by simp [viewM, rowsOf, refsOf, hmj]
+          have hargs : argViews (hBinLoop .extendMatrix n j st.1) rest = argViews st.1 rest :=
+            argViews_congr _ _ rest ok.metas (fun j' hj' => ok.frame j' (hne j' (by simp [hj'])))
+          refine ⟨cst, ?_, hrows, hsubs, hpos, ?_, hsep, by rw [hmet, ok.metas]⟩
+          · simp only [argViews, List.filterMap_cons, hview]
+            simp only [concatLoop]
+            rw [concatStep_acc, hc1]
+            simp only
+            simp only [argViews] at hargs hloop
+            rw [hargs, ok.rows, binFn] at hloop
+            rw [hvrows]
+            exact hloop
+          · intro m hm
+            rw [hframe m hm, ok.frame m hm]
+
+end DendroModel.C19.Aux
+
+namespace DendroModel.C19.Aux
+open DendroModel.C19
+
+theorem rowsOf_push_lt (w : World) (m0 : HMat) (k : Nat) (hk : k < w.mats.length) :
+    rowsOf { w with mats := w.mats ++ [m0] } k = rowsOf w k := by
+  have := refsOf_push w m0 w.heap k
+  simp only [hk, if_true] at this
+  simp only [rowsOf]
+  rw [show ({ w with mats := w.mats ++ [m0] } : World) = { heap := w.heap, mats := w.mats ++ [m0] } from rfl, this]
+
+theorem views_push_lt (w : World) (m0 : HMat) (k : Nat) (hk : k < w.mats.length) :
+    (views { w with mats := w.mats ++ [m0] })[k]? = (views w)[k]? := by
+  simp [views, List.getElem?_append_left, hk]
+
+theorem argViews_push (w : World) (m0 : HMat) (args : List Nat) (hv : ∀ j ∈ args, j < w.mats.length) :
+    argViews { w with mats := w.mats ++ [m0] } args = argViews w args := by
+  induction args with
+  | nil => rfl
+  | cons j rest ih =>
+    simp only [argViews, List.filterMap_cons] at ih ⊢
+    rw [views_push_lt w m0 j (hv j (by simp)), ih (fun j' hj' => hv j' (by simp [hj']))]
+
+end DendroModel.C19.Aux
+
+namespace DendroModel.C19
+
+/-- **`concatenate` on objects** = `concatenate` on the values of the matrices it names — in the order it names them, the same
+    object named several times included (`concatenate([m, m])`): on a pool without shared objects a successful call appends
+    ONE new matrix whose value is the value-level result, leaves every matrix of the pool (all arguments) as it was, and the
+    new matrix shares no sequence object with anything. -/
+theorem hConcat_sim (w w' : World) (args : List Nat) (hs : Sep w) (hv : ∀ j ∈ args, j < w.mats.length)
+    (h : hConcat w args = .ok w') :
+    ∃ r, concatenate (argViews w args) = .ok r ∧ FreshOK w w' r.rows ∧ (views w')[w.mats.length]? = some r := by
+  simp only [hConcat] at h
+  split at h
+  · cases h
+  · next j0 tl =>
+    split at h
+    · cases h
+    · next m0 hm0 =>
+      split at h
+      · cases h
+      · next w1 subs pos hl =>
+        cases h
+        have hs0 := Aux.sep_push_empty w { ns := m0.ns, taxa := m0.taxa, label := none, refs := [], subs := [] } rfl hs
+        have hne : ∀ j ∈ j0 :: tl, j ≠ w.mats.length := fun j hj => Nat.ne_of_lt (hv j hj)
+        obtain ⟨cst, hloop, hrows, hsubs, hpos, hframe, hsep, hmet⟩ :=
+          Aux.hConcatLoop_sim m0.ns m0.taxa m0.refs.length w.mats.length (j0 :: tl) _ _ 0 hs0 (by simp) hne hl
+        have hargs := Aux.argViews_push w { ns := m0.ns, taxa := m0.taxa, label := none, refs := [], subs := [] } (j0 :: tl) hv
+        have hr0 : rowsOf ({ w with mats := w.mats ++ [{ ns := m0.ns, taxa := m0.taxa, label := none, refs := [], subs := [] }] } : World)
+            w.mats.length = [] := by
+          simp [rowsOf, refsOf, deref]
+        simp only at hloop hrows hsubs hpos hframe hsep hmet
+        rw [hargs, hr0] at hloop
+        have hview0 : (views w)[j0]? = some (viewM w.heap m0) := by simp [Aux.views_getElem?, hm0]
+        have hav : argViews w (j0 :: tl) = viewM w.heap m0 :: argViews w tl := by
+          simp [argViews, List.filterMap_cons, hview0]
+        have hfin : ∀ k, rowsOf ({ w1 with mats := modAt w.mats.length (fun m => { m with subs := subs }) w1.mats } : World) k = rowsOf w1 k := by
+          intro k
+          have := Aux.refsOf_modAt_meta w1 w.mats.length (fun m => { m with subs := subs }) (fun _ => rfl) k
+          simp only [rowsOf]
+          exact congrArg (deref w1.heap) this
+        have hlen1 : w1.mats.length = w.mats.length + 1 := by
+          have := Aux.length_of_metas _ _ hmet
+          simpa using this
+        refine ⟨{ ns := m0.ns, taxa := m0.taxa, label := none, rows := cst.acc, subs := cst.subs }, ?_, ⟨?_, ?_, ?_, ?_, ?_⟩, ?_⟩
+        · rw [hav]
+          rw [hav] at hloop
+          simp only [concatenate, viewM]
+          have hn : (deref w.heap m0.refs).length = m0.refs.length := by simp [deref]
+          rw [hn]
+          simp only [viewM] at hloop
+          rw [hloop]
+        · simp [Aux.length_modAt, hlen1]
+        · rw [hfin, hrows]
+        · intro m hm
+          rw [hfin, hframe m (Nat.ne_of_lt hm), Aux.rowsOf_push_lt w _ m hm]
+        · exact Aux.sep_of_refs w1 _ (Aux.refsOf_modAt_meta w1 _ _ (fun _ => rfl)) (Nat.le_refl _) hsep
+        · have hm1 : metas w1 = metas w ++ [(m0.ns, m0.taxa, none, [])] := by
+            rw [hmet]; simp [metas]
+          simp only [metas] at hm1 ⊢
+          apply List.ext_getElem?
+          intro k
+          have hk1 := congrArg (fun l => l[k]?) hm1
+          simp only [List.getElem?_map, List.getElem?_take, Aux.getElem?_modAt] at hk1 ⊢
+          by_cases hk : k < w.mats.length
+          · have hkn : k ≠ w.mats.length := Nat.ne_of_lt hk
+            simp only [hk, hkn, if_true, if_false]
+            rw [hk1, List.getElem?_append_left (by simpa using hk)]
+            simp
+          · simp only [hk, if_false]
+            rw [List.getElem?_eq_none (Nat.le_of_not_lt hk)]
+            rfl
+        · have hm1 : metas w1 = metas w ++ [(m0.ns, m0.taxa, none, [])] := by
+            rw [hmet]; simp [metas]
+          have hk1 := congrArg (fun l => l[w.mats.length]?) hm1
+          simp only [metas, List.getElem?_map] at hk1
+          rw [List.getElem?_append_right (by simp)] at hk1
+          simp only [List.length_map, Nat.sub_self, List.getElem?_cons_zero] at hk1
+          simp only [Aux.views_getElem?, Aux.getElem?_modAt, if_true]
+          cases hw1 : w1.mats[w.mats.length]? with
+          | none => simp [hw1] at hk1
+          | some mn =>
+            simp only [hw1, Option.map_some, Option.some.injEq, Prod.mk.injEq] at hk1
+            have hrn : rowsOf w1 w.mats.length = deref w1.heap mn.refs := by simp [rowsOf, refsOf, hw1]
+            simp only [Option.map_some, viewM, Option.some.injEq]
+            rw [← hrn, hrows, hsubs, hk1.1, hk1.2.1, hk1.2.2.1]
+
+end DendroModel.C19
+
+/-! ## the pool a driver history starts from -/
+
+namespace DendroModel.C19.Aux
+open DendroModel.C19
+
+theorem sep_push_fresh (w : World) (m' : HMat) (xs : List Row) (hs : Sep w) (hk : (akeys m'.refs).Nodup)
+    (hb : ∀ k a, (k, a) ∈ m'.refs → w.heap.length ≤ a ∧ a < w.heap.length + xs.length)
+    (hi : ∀ k k' a, (k, a) ∈ m'.refs → (k', a) ∈ m'.refs → k = k') :
+    Sep { heap := w.heap ++ xs, mats := w.mats ++ [m'] } := by
+  have hpush := refsOf_push w m' (w.heap ++ xs)
+  refine ⟨?_, ?_, ?_⟩
+  · intro k a ha
+    rw [hpush] at ha
+    simp only [List.length_append]
+    by_cases hk1 : k < w.mats.length
+    · simp only [hk1, if_true] at ha; have := hs.bound k a ha; omega
+    · by_cases hk' : k = w.mats.length
+      · subst hk'
+        simp only [Nat.lt_irrefl, if_false, if_true, addrs, List.mem_map] at ha
+        obtain ⟨p, hp, hpa⟩ := ha
+        have := hb p.1 p.2 hp
+        omega
+      · simp [hk1, hk', addrs] at ha
+  · intro k
+    rw [hpush]
+    by_cases hk1 : k < w.mats.length
+    · simp only [hk1, if_true]; exact hs.keysNd k
+    · by_cases hk' : k = w.mats.length
+      · subst hk'; simp only [Nat.lt_irrefl, if_false, if_true]; exact hk
+      · simp [hk1, hk', akeys]
+  · intro k k' t t' a h1 h2
+    rw [hpush] at h1 h2
+    have old : ∀ k0 t0, (t0, a) ∈ refsOf w k0 → a < w.heap.length := fun k0 t0 hmem =>
+      hs.bound k0 a (by simp only [addrs, List.mem_map]; exact ⟨(t0, a), hmem, rfl⟩)
+    by_cases hk1 : k < w.mats.length <;> by_cases hk2 : k' < w.mats.length
+    · simp only [hk1, hk2, if_true] at h1 h2; exact hs.inj k k' t t' a h1 h2
+    · simp only [hk1, hk2, if_true, if_false] at h1 h2
+      by_cases hk' : k' = w.mats.length
+      · subst hk'
+        simp only [if_true] at h2
+        have := hb t' a h2; have := old k t h1; omega
+      · simp [hk'] at h2
+    · simp only [hk1, hk2, if_true, if_false] at h1 h2
+      by_cases hk' : k = w.mats.length
+      · subst hk'
+        simp only [if_true] at h1
+        have := hb t a h1; have := old k' t' h2; omega
+      · simp [hk'] at h1
+    · simp only [hk1, hk2, if_false] at h1 h2
+      by_cases hk' : k = w.mats.length <;> by_cases hk2' : k' = w.mats.length
+      · subst hk'; subst hk2'
+        simp only [if_true] at h1 h2
+        exact ⟨rfl, hi t t' a h1 h2⟩
+      · simp [hk2'] at h2
+      · simp [hk'] at h1
+      · simp [hk'] at h1
+
+theorem mem_enumRefs : ∀ (base : Nat) (rows : Rows) (k : Taxon) (a : Nat), (k, a) ∈ enumRefs base rows →
+    base ≤ a ∧ a < base + rows.length
+  | _, [], _, _, h => by simp [enumRefs] at h
+  | b, (t, r) :: rest, k, a, h => by
+    simp only [enumRefs, List.mem_cons, Prod.mk.injEq] at h
+    rcases h with h | h
+    · simp only [List.length_cons]; omega
+    · have := mem_enumRefs (b + 1) rest k a h
+      simp only [List.length_cons]; omega
+
+theorem enumRefs_inj : ∀ (base : Nat) (rows : Rows) (k k' : Taxon) (a : Nat), (k, a) ∈ enumRefs base rows →
+    (k', a) ∈ enumRefs base rows → k = k'
+  | _, [], _, _, _, h, _ => by simp [enumRefs] at h
+  | b, (t, r) :: rest, k, k', a, h1, h2 => by
+    simp only [enumRefs, List.mem_cons, Prod.mk.injEq] at h1 h2
+    rcases h1 with h1 | h1 <;> rcases h2 with h2 | h2
+    · rw [h1.1, h2.1]
+    · have := mem_enumRefs (b + 1) rest k' a h2; omega
+    · have := mem_enumRefs (b + 1) rest k a h1; omega
+    · exact enumRefs_inj (b + 1) rest k k' a h1 h2
+
+theorem akeys_enumRefs : ∀ (base : Nat) (rows : Rows), akeys (enumRefs base rows) = keys rows
+  | _, [] => rfl
+  | b, (t, r) :: rest => by
+    have := akeys_enumRefs (b + 1) rest
+    simp only [akeys, keys] at this
+    simp [enumRefs, akeys, keys, this]
+
+theorem deref_enumRefs : ∀ (rows : Rows) (pre post : List Row),
+    deref (pre ++ rows.map Prod.snd ++ post) (enumRefs pre.length rows) = rows
+  | [], _, _ => by simp [deref, enumRefs]
+  | (t, r) :: rest, pre, post => by
+    have ih := deref_enumRefs rest (pre ++ [r]) post
+    simp only [List.length_append, List.length_singleton, List.append_assoc, List.singleton_append] at ih
+    simp only [enumRefs, List.map_cons, deref, List.append_assoc, List.cons_append] at ih ⊢
+    rw [ih, hget_append_cons]
+
+end DendroModel.C19.Aux
+
+namespace DendroModel.C19
+
+/-- the pool a `world` history of the driver starts from: every row of every matrix is a sequence object of its own, hence
+    no sharing — the histories the driver runs are within the scope of `hRun_sep` and of the simulation theorems -/
+theorem initWorld_sep (ms : List Matrix) (h : ∀ m ∈ ms, (keys m.rows).Nodup) : Sep (initWorld ms) := by
+  have key : ∀ (ms : List Matrix) (st : List Row × List HMat), Sep ⟨st.1, st.2⟩ → (∀ m ∈ ms, (keys m.rows).Nodup) →
+      Sep ⟨(ms.foldl initMat st).1, (ms.foldl initMat st).2⟩ := by
+    intro ms
+    induction ms with
+    | nil => intro st hs _; exact hs
+    | cons m rest ih =>
+      intro st hs hnd
+      simp only [List.foldl_cons]
+      apply ih _ _ (fun m' hm' => hnd m' (by simp [hm']))
+      simp only [initMat]
+      have := Aux.sep_push_fresh ⟨st.1, st.2⟩ { ns := m.ns, taxa := m.taxa, label := m.label, refs := enumRefs st.1.length m.rows, subs := m.subs }
+        (m.rows.map Prod.snd) hs (by rw [Aux.akeys_enumRefs]; exact hnd m (by simp))
+        (fun k a hka => by have := Aux.mem_enumRefs _ _ k a hka; simpa using this)
+        (fun k k' a h1 h2 => Aux.enumRefs_inj _ _ k k' a h1 h2)
+      exact this
+  have h0 : Sep ⟨[], []⟩ := by
+    refine ⟨?_, ?_, ?_⟩
+    · intro i a ha; simp [refsOf, Aux.addrs] at ha
+    · intro i; simp [refsOf, akeys]
+    · intro i i' k k' a h1; simp [refsOf] at h1
+  exact key ms ([], []) h0 h
+
+end DendroModel.C19
+
+/-! # Tie A: the kernels regenerated from the source (`Gen/C19Kernels.lean`, `harness/gen/c19kernels.py`) -/
+
+namespace DendroModel.C19
+open DendroModel
+
+/-- **bridge (tie A)**: the default subset label and the candidate names of the model are the formats read off the source -/
+theorem gen_labels (base : Label) (cidx i : Nat) :
+    locus cidx = C19Kernels.locusPrefix ++ pad3 cidx ∧ C19Kernels.locusWidth = 3 ∧
+    cand base i = base ++ C19Kernels.candSep ++ pad3 i ∧ C19Kernels.candWidth = 3 := by
+  refine ⟨?_, by decide, ?_, by decide⟩
+  · have : "locus".toList = C19Kernels.locusPrefix := by decide
+    simp only [locus, this]
+  · have : C19Kernels.candSep = ['_'] := by decide
+    simp [cand, this]
+
+/-- **bridge**: the name search of the model is the loop of the source: it tries the label itself first, then the candidates
+    from `firstSuffix` on in steps of `suffixStep`, and the name it re-tests is the one it has just built -/
+theorem gen_search (subs : List (Label × List Nat)) (base : Label) (i : Nat) :
+    C19Kernels.searchStartsAtLabel = true ∧ C19Kernels.searchRebindsTestedName = true ∧
+    freeName subs base = (if hasSub subs base then freeFrom subs base C19Kernels.firstSuffix else base) ∧
+    freeFrom subs base i = (if hasSub subs (cand base i) then freeFrom subs base (i + C19Kernels.suffixStep) else cand base i) := by
+  refine ⟨by decide, by decide, rfl, ?_⟩
+  rw [freeFrom]
+  simp only [C19Kernels.suffixStep]
+  split <;> simp_all
+
+/-- **bridge**: a round of the model's `concatenate` refuses what the three guards of the source refuse, and a row of another
+    length than the first; the recorded span and the next position are those of the source -/
+theorem gen_concat_round (ns : Nat) (taxa : List Taxon) (nseqs : Nat) (st : CState) (cidx : Nat) (cm : Matrix) :
+    (C19Kernels.guardRefuses (decide (cm.ns = ns)) cm.rows.length taxa.length nseqs = true →
+      concatStep ns taxa nseqs st cidx cm = .error .valueError) ∧
+    (∀ st', concatStep ns taxa nseqs st cidx cm = .ok st' →
+      C19Kernels.guardRefuses (decide (cm.ns = ns)) cm.rows.length taxa.length nseqs = false ∧
+      (∀ t0 ∈ taxa.head?, ∀ p ∈ items taxa cm.rows, C19Kernels.rowRefuses p.2.length (rowOf t0 cm.rows).length = false) ∧
+      st'.pos = C19Kernels.nextPos st.pos (vectorSize cm.rows) ∧
+      (∃ name, st'.subs = st.subs ++ [(name, C19Kernels.spanOf st.pos (vectorSize cm.rows))])) := by
+  have hspan : ∀ p w, C19Kernels.spanOf p w = List.range' p w := by
+    intro p w; simp [C19Kernels.spanOf]
+  constructor
+  · intro h
+    simp only [C19Kernels.guardRefuses, Bool.or_eq_true, Bool.not_eq_true', decide_eq_false_iff_not, bne_iff_ne, ne_eq] at h
+    simp only [concatStep]
+    split; · rfl
+    split; · rfl
+    split; · rfl
+    rename_i a b c
+    exfalso
+    rcases h with (h | h) | h
+    · exact a h
+    · exact b h
+    · exact c h
+  · intro st' h
+    simp only [concatStep] at h
+    split at h; · cases h
+    split at h; · cases h
+    split at h; · cases h
+    rename_i h1 h2 h3
+    split at h; · cases h
+    rename_i t0 tl
+    split at h; · cases h
+    rename_i hrect
+    split at h; · cases h
+    cases h
+    refine ⟨?_, ?_, rfl, ⟨_, by rw [hspan]⟩⟩
+    · simp only [C19Kernels.guardRefuses, Bool.or_eq_false_iff, Bool.not_eq_false', decide_eq_true_eq, bne_eq_false_iff_eq]
+      exact ⟨⟨Decidable.of_not_not h1, Decidable.of_not_not h2⟩, Decidable.of_not_not h3⟩
+    · intro t0' ht0' p hp
+      simp only [List.head?_cons, Option.mem_def, Option.some.injEq] at ht0'
+      subst ht0'
+      simp only [List.any_eq_true, not_exists, not_and, Bool.not_eq_true, bne_eq_false_iff_eq] at hrect
+      simp only [C19Kernels.rowRefuses, bne_eq_false_iff_eq]
+      exact hrect p hp
+
+/-- **bridge**: the padding loop of the model is the `while` of the source (test, append / insert position) -/
+theorem gen_pad (value : Cell) (size : Nat) (append : Bool) (v : Row) :
+    C19Kernels.fillDefaultIsMax = true ∧
+    padLoop value size append v =
+      (if C19Kernels.padContinue v.length size then
+        padLoop value size append (if append then v ++ [value] else v.insertIdx C19Kernels.prependIndex value)
+       else v) := by
+  refine ⟨by decide, ?_⟩
+  rw [padLoop]
+  simp [C19Kernels.padContinue, C19Kernels.prependIndex]
+
+/-- **bridge**: the column filter of the model visits the cells as the source does (from `len - 1` down to `0`) and deletes
+    the cells whose index is absent from the set -/
+theorem gen_export (keep : Nat → Bool) (n : Nat) (v : Row) :
+    C19Kernels.exportStartOffset = 1 ∧ C19Kernels.exportStop = -1 ∧ C19Kernels.exportStep = -1 ∧
+    C19Kernels.exportDeletesAbsent = true ∧
+    delLoop keep (n + 1) v = delLoop keep n (if keep (n + 1 - C19Kernels.exportStartOffset) then v else v.eraseIdx (n + 1 - C19Kernels.exportStartOffset)) := by
+  refine ⟨by decide, by decide, by decide, by decide, ?_⟩
+  simp only [delLoop, C19Kernels.exportStartOffset, Nat.add_sub_cancel]
+
+end DendroModel.C19
